@@ -95,6 +95,21 @@ def reply (toks : List String) : String :=
       | some (e, []) => WireExpr.resValueTok ((Ast.build e).eval row)
       | _ => "bad-request"
     | none => "bad-request"
+  | "eval2" :: rest =>
+    -- one expression evaluated on one row, then on another, then on the first again: in the model
+    -- an expression is a value, so each evaluation depends on its row alone
+    match WireExpr.parseRow rest with
+    | some (row1, rest1) =>
+      match WireExpr.parseRow rest1 with
+      | some (row2, rest2) =>
+        match WireExpr.parseExpr (rest2.length + 1) rest2 with
+        | some (e, []) =>
+          let a := WireExpr.resValueTok ((Ast.build e).eval row1)
+          let b := WireExpr.resValueTok ((Ast.build e).eval row2)
+          if a == "panic" || b == "panic" then "panic" else a ++ " " ++ b ++ " " ++ a
+        | _ => "bad-request"
+      | none => "bad-request"
+    | none => "bad-request"
   | "fmt" :: rest =>
     match WireExpr.parseExpr (rest.length + 1) rest with
     | some (e, []) =>
@@ -118,7 +133,9 @@ def reply (toks : List String) : String :=
         | none => "panic"
       | none => "panic"
     | _, _ => "bad-request"
-  | ["ts_save", secs, nanos] =>
+  | "ts_save" :: secs :: nanos :: _ =>
+    -- (optional further tokens: a summary code page and text for the string properties; the
+    -- creation time read back does not depend on them)
     match secs.toInt?, nanos.toNat? with
     | some s, some n =>
       let t : Int := s * 1000000000 + n
